@@ -1,4 +1,94 @@
-(* C18 -- acyclic_unroll.  Statements only; proofs in Proofs/AcyclicUnrollProofs.v. *)
-From stdpp Require Import strings gmap sets.
-From CG Require Import Model.AcyclicUnroll.
+(* C18 -- acyclic_unroll removes cycles and preserves stable states (and the C05 clause for acyclic arguments).
+   Statements only; proofs in Proofs/AcyclicUnrollProofs.v.
+
+   Model: Model/AcyclicUnroll.v `acyclic_unroll C F` (API-level mirror of tx.acyclic_unroll, F = feedback node set) and
+   `unrolled c F` (closed form of its result).  Proved here, for ALL circuits and ALL feedback sets with an acyclic cut:
+   the semantics and the io structure of the closed form, and that the feedback choice of the code is always legal
+   (back edges of ANY node order that lie on a cycle).  Not proved, decided per case by Run_C18.agree/holds:
+   `C18_closed_form_full` (API-level model = closed form), lint-cleanliness and acyclicity of the result. *)
+From stdpp Require Import strings gmap sets fin_sets.
+From CG Require Import Base.Oracle Model.AcyclicUnroll Model.TopoEval Proofs.AcyclicUnrollProofs.
 Open Scope string_scope.
+
+(* --- the feedback choice: for every node order, removing the back edges that lie on a cycle leaves an acyclic graph
+       (so `approx_min_fas` never raises on a circuit without self loops, whatever the greedy heuristic and the hash order do) --- *)
+Theorem C18_cut_acyclic_any_order : ∀ c ord,
+  (∀ n, n ∉ fanin c n) → (∀ n, n ∈ dom c → n ∈ ord) → closed c → acyclic (cut_edges c ord).
+Proof. exact cut_acyclic_any_order_proof. Qed.
+Print Assumptions C18_cut_acyclic_any_order.
+
+(* the node set the construction then cuts (sources of those edges) has an acyclic cut, and each such node lies on a cycle *)
+Theorem C18_feedback_choice_ok : ∀ c ord,
+  (∀ n, n ∉ fanin c n) → (∀ n, n ∈ dom c → n ∈ ord) → closed c → cut_acyclic c (elements (fas_of_order c ord)).
+Proof. exact fas_cut_acyclic. Qed.
+Print Assumptions C18_feedback_choice_ok.
+Theorem C18_feedback_on_cycle : ∀ c ord u, u ∈ fas_of_order c ord → tc (λ a b, a ∈ fanin c b) u u.
+Proof. exact fas_on_cycle. Qed.
+Print Assumptions C18_feedback_on_cycle.
+(* `desc` (the model of nx.descendants used in the edge filter) is exactly proper reachability *)
+Theorem C18_desc_exact : ∀ c x z, z ∈ desc c x ↔ tc (λ a b, a ∈ fanin c b) x z.
+Proof. intros. split; [apply desc_sound|apply desc_complete]. Qed.
+Print Assumptions C18_desc_exact.
+
+(* --- stable states: for every feedback set F with an acyclic cut, every consistent valuation w of the unrolled circuit
+       that agrees with a stable state v of c on the inputs and carries v f on the aux input of f shows v on all outputs --- *)
+Theorem C18_stable_states_partial : ∀ c F v w,
+  closed c → free_are_inputs c → names_ok c F → cut_acyclic c F → (∀ f, f ∈ F → f ∈ dom c) →
+  consistent c v → consistent (unrolled c F) w → agrees (inputs c) w v →
+  (∀ f, f ∈ F → w ("c0_aux_in_" ++ f) = v f) →
+  agrees (outputs c) w v.
+Proof. exact unrolled_stable. Qed.
+Print Assumptions C18_stable_states_partial.
+
+(* same outputs; inputs = original inputs plus one aux input per feedback node *)
+Theorem C18_outputs_partial : ∀ c F, names_ok c F → outputs (unrolled c F) = outputs c.
+Proof. intros c F [H _]. by apply unrolled_outputs. Qed.
+Print Assumptions C18_outputs_partial.
+Theorem C18_inputs_partial : ∀ c F, names_ok c F →
+  inputs (unrolled c F) = inputs c ∪ list_to_set ((λ f, "c0_aux_in_" ++ f) <$> F).
+Proof. exact unrolled_inputs'. Qed.
+Print Assumptions C18_inputs_partial.
+
+(* C05 clause: acyclic_unroll of an already acyclic circuit (no feedback node) is equivalent to it on inputs/outputs *)
+Theorem C05_acyclic_unroll_of_acyclic_partial : ∀ c v w,
+  closed c → free_are_inputs c → names_ok c [] → acyclic c →
+  consistent c v → consistent (unrolled c []) w → agrees (inputs c) w v → agrees (outputs c) w v.
+Proof. exact unrolled_of_acyclic. Qed.
+Print Assumptions C05_acyclic_unroll_of_acyclic_partial.
+
+(* the oracle's evaluator: a table whose valuation passes consistentb IS the unique consistent valuation *)
+Theorem C18_oracle_evaluator_certified : ∀ c ord a v, closed c → acyclic c →
+  consistentb c (te_eval ord a) = true → eq_on (elements (free_nodes c)) (te_eval ord a) a = true →
+  consistent c v → agrees (free_nodes c) v a → agrees (dom c) v (te_eval ord a).
+Proof. exact te_certified. Qed.
+Print Assumptions C18_oracle_evaluator_certified.
+
+(* --- what is NOT proved (visible, decided per case by Run_C18): the API-level model produces the closed form, and the
+       result is lint-clean and acyclic.  With these the `_partial` theorems above become DESIGN.md's C18_acyclic_unroll. --- *)
+Definition C18_closed_form_full : Prop := ∀ C F,
+  lint_clean C → bb_free C → closed (c_g C) → (∀ n, n ∉ fanin (c_g C) n) → names_ok (c_g C) F →
+  NoDup F → (∀ f, f ∈ F → f ∈ dom (c_g C)) → cut_acyclic (c_g C) F →
+  acyclic_unroll C F = Ok {| c_name := "acyc_" ++ c_name C; c_g := unrolled (c_g C) F; c_bbs := ∅ |}.
+Definition C18_result_wellformed_full : Prop := ∀ C F,
+  lint_clean C → closed (c_g C) → names_ok (c_g C) F → cut_acyclic (c_g C) F →
+  acyclic (unrolled (c_g C) F) ∧ lint_clean {| c_name := "acyc_" ++ c_name C; c_g := unrolled (c_g C) F; c_bbs := ∅ |}.
+
+(* --- non-vacuity: a nested pair of cycles (g <-> h, h <-> k) with an input that is also an output --- *)
+Definition ex_c : circuit :=
+  {[ "a" := mk_node Input true ∅ ]} ∪ {[ "g" := mk_node Nand true {[ "a"; "h" ]} ]} ∪
+  {[ "h" := mk_node Nand false {[ "g"; "k" ]} ]} ∪ {[ "k" := mk_node Or true {[ "h"; "a" ]} ]}.
+Definition ex_C := {| c_name := "t"; c_g := ex_c; c_bbs := ∅ |}.
+Definition ex_v : val := λ n, bool_decide (n ∈ ({[ "a"; "h"; "k" ]} : gset string)).     (* a=1 g=0 h=1 k=1 *)
+Example C18_ex_hyps : closed ex_c ∧ free_are_inputs ex_c ∧ names_ok ex_c ["h"] ∧ cut_acyclic ex_c ["h"] ∧ consistent ex_c ex_v.
+Proof.
+  split; [apply closedb_spec; vm_compute; reflexivity|].
+  split; [apply (bool_decide_unpack _); vm_compute; reflexivity|].
+  split; [apply names_okb_spec; vm_compute; reflexivity|].
+  split; [apply acyclicb_sound; vm_compute; reflexivity|].
+  apply consistentb_spec; vm_compute; reflexivity.
+Qed.
+Example C18_ex_model_is_closed_form :
+  acyclic_unroll ex_C ["h"] = Ok {| c_name := "acyc_t"; c_g := unrolled ex_c ["h"]; c_bbs := ∅ |} ∧ size (unrolled ex_c ["h"]) = 13.
+Proof. split; apply (bool_decide_unpack _); vm_compute; reflexivity. Qed.
+Example C18_ex_feedback : fas_of_order ex_c ["a"; "g"; "h"; "k"] = {[ "h"; "k" ]} ∧ fas_of_order ex_c ["k"; "h"; "g"; "a"] = {[ "g"; "h" ]}.
+Proof. split; apply (bool_decide_unpack _); vm_compute; reflexivity. Qed.
